@@ -57,12 +57,14 @@ def same(a, b, leaf_eq='is', path='$'):
                 return d
         return None
     if isinstance(a, (dict,)):
-        ka, kb = [key_ident(k) for k in dict.keys(a)], [key_ident(k) for k in dict.keys(b)]
+        from optsim.scenario import ditems
+        ia, ib = ditems(a), ditems(b)
+        ka, kb = [key_ident(k) for k, _ in ia], [key_ident(k) for k, _ in ib]
         if ka != kb:
             return '%s: keys %r != %r' % (path, ka, kb)
         if isinstance(a, defaultdict) and a.default_factory is not b.default_factory:
             return '%s: default_factory differs' % path
-        for (k, x), y in zip(dict.items(a), dict.values(b)):
+        for (k, x), (_, y) in zip(ia, ib):
             d = same(x, y, leaf_eq, '%s[%s]' % (path, key_ident(k)[1:]))
             if d:
                 return d
